@@ -1,12 +1,17 @@
 #!/bin/bash
 # tools/try_seed.sh <property id> <patch file> [more property ids...] : apply a seeded change to /repo, run the quick check(s), undo it.
+# Evidence files and the regenerated Coq files are restored afterwards, so that what is committed always comes from the unchanged tree.
 id=$1; patch=$2; shift 2
 cd /repo || exit 2
 git apply --check "$patch" || { echo "patch does not apply"; exit 2; }
+bk=$(mktemp -d)
+cp -a /verif/evidence "$bk/evidence"
 git apply "$patch"
 for p in $id "$@"; do
   echo "== check $p with $(basename $(dirname $patch))"
-  ( cd /verif && timeout 1800 ./check $p --tier quick; echo "exit=$?" )
+  ( cd /verif && timeout 3000 ./check $p --tier quick; echo "exit=$?" )
 done
 git -C /repo checkout -- .
 git -C /repo status --short | head
+rm -rf /verif/evidence && mv "$bk/evidence" /verif/evidence && rmdir "$bk"
+( cd /verif && for t in translate/t*.py; do python3 "$t" /repo >/dev/null; done )
